@@ -116,6 +116,8 @@ func (e *SpecEnv) constVal(c constant.Value, typ types.Type) Val {
 	if typ != nil {
 		if bt, ok := typ.Underlying().(*types.Basic); ok {
 			switch {
+			case bt.Info()&types.IsUntyped != 0:
+				return Val{konst: c}
 			case bt.Info()&types.IsBoolean != 0:
 				return Val{t: b.Bool(constant.BoolVal(c)), typ: typ}
 			case bt.Info()&types.IsInteger != 0:
@@ -272,6 +274,8 @@ func (e *SpecEnv) eval(x ast.Expr) Val {
 		return e.cx.unbox(v.t, t)
 	case *ast.CallExpr:
 		return e.evalCall(n)
+	case *ast.CompositeLit:
+		return e.compositeLit(n)
 	}
 	specFail("unsupported spec expression %s (%T)", exprString(x), x)
 	return Val{}
@@ -769,6 +773,26 @@ func (e *SpecEnv) evalCall(n *ast.CallExpr) Val {
 			specFail("sameHeap() needs an old state")
 		}
 		return Val{t: e.cx.sameHeaps(e.cur, e.old), typ: boolT}
+	case "u8At", "u16At", "u32At", "u64At":
+		// little-endian cell laid over a byte slice at a byte offset (trusted view model)
+		argn(2)
+		s := e.eval(n.Args[0])
+		if s.t == nil || s.t.sort != SSlice {
+			specFail("%s: first argument must be a byte slice", name)
+		}
+		off := e.coerce(e.eval(n.Args[1]), types.Typ[types.Int])
+		bits := map[string]int{"u8At": 8, "u16At": 16, "u32At": 32, "u64At": 64}[name]
+		loc := b.Elem(w.sbase(s.t), b.BVOp("bvadd", w.soff(s.t), off.t))
+		hn := w.heapName(SBV(bits))
+		ut := map[int]types.Type{8: types.Typ[types.Uint8], 16: types.Typ[types.Uint16], 32: types.Typ[types.Uint32], 64: types.Typ[types.Uint64]}[bits]
+		return Val{t: b.Select(e.cur.heap(e.cx, hn), loc), typ: ut, loc: loc}
+	case "preserved":
+		// preserved(): no pre-existing location changed (objects allocated meanwhile and
+		// frame-exempt bookkeeping fields excepted)
+		if e.old == nil {
+			specFail("preserved() needs an old state")
+		}
+		return Val{t: e.cx.preserved(e.cur, e.old), typ: boolT}
 	case "fresh":
 		argn(1)
 		v := e.eval(n.Args[0])
@@ -778,8 +802,105 @@ func (e *SpecEnv) evalCall(n *ast.CallExpr) Val {
 	if pf := e.cx.eng.lookupPure(e.pkg, name); pf != nil {
 		return e.callPure(pf, n)
 	}
+	if uf := e.cx.eng.lookupUninterp(e.pkg, name); uf != nil {
+		return e.callUninterp(uf, n)
+	}
 	specFail("unknown spec function %s", exprString(n.Fun))
 	return Val{}
+}
+
+func (e *SpecEnv) callUninterp(uf *Uninterp, n *ast.CallExpr) Val {
+	w := e.w()
+	pkg := e.cx.eng.typesPackage(uf.PkgPath)
+	penv := &SpecEnv{cx: e.cx, pkg: pkg}
+	var args []*Term
+	var sorts []string
+	i := 0
+	for _, fld := range uf.Decl.Type.Params.List {
+		pt := penv.lookupType(fld.Type)
+		if pt == nil {
+			specFail("uninterp %s: unknown parameter type", uf.Decl.Name.Name)
+		}
+		cnt := len(fld.Names)
+		if cnt == 0 {
+			cnt = 1
+		}
+		for k := 0; k < cnt; k++ {
+			if i >= len(n.Args) {
+				specFail("too few arguments for %s", uf.Decl.Name.Name)
+			}
+			v := e.eval(n.Args[i])
+			if v.isNil {
+				v = Val{t: w.zero(pt), typ: pt}
+			} else {
+				v = e.coerce(v, pt)
+			}
+			if v.t.sort != w.sortOf(pt) {
+				specFail("argument %d of %s: sort %s, want %s", i, uf.Decl.Name.Name, v.t.sort, w.sortOf(pt))
+			}
+			args = append(args, v.t)
+			sorts = append(sorts, string(w.sortOf(pt)))
+			i++
+		}
+	}
+	if i != len(n.Args) {
+		specFail("wrong number of arguments for %s", uf.Decl.Name.Name)
+	}
+	if uf.Decl.Type.Results == nil || len(uf.Decl.Type.Results.List) != 1 {
+		specFail("uninterp %s needs one result", uf.Decl.Name.Name)
+	}
+	rt := penv.lookupType(uf.Decl.Type.Results.List[0].Type)
+	if rt == nil {
+		specFail("uninterp %s: unknown result type", uf.Decl.Name.Name)
+	}
+	w.forceSorts(rt)
+	rs := w.sortOf(rt)
+	nm := "uf_" + sanitize(uf.Decl.Name.Name)
+	w.uninterp[nm] = "(" + strings.Join(sorts, " ") + ") " + string(rs)
+	if len(args) == 0 {
+		return Val{t: e.b().mk("("+nm+")", rs), typ: rt}
+	}
+	return Val{t: e.b().mk(nm, rs, args...), typ: rt}
+}
+
+func (e *SpecEnv) compositeLit(n *ast.CompositeLit) Val {
+	w := e.w()
+	t := e.lookupType(n.Type)
+	if t == nil {
+		specFail("unknown type in composite literal %s", exprString(n.Type))
+	}
+	if !isStructType(t) {
+		specFail("only struct composite literals are supported")
+	}
+	si := w.structInfo(t)
+	args := make([]*Term, len(si.Fields))
+	for i, f := range si.Fields {
+		args[i] = w.zero(f.Type)
+	}
+	for _, el := range n.Elts {
+		kv, ok := el.(*ast.KeyValueExpr)
+		if !ok {
+			specFail("composite literal needs field: value")
+		}
+		id, ok := kv.Key.(*ast.Ident)
+		if !ok {
+			specFail("composite literal key")
+		}
+		f, i, ok := si.field(id.Name)
+		if !ok {
+			specFail("no field %s", id.Name)
+		}
+		v := e.eval(kv.Value)
+		if v.isNil {
+			v = Val{t: w.zero(f.Type), typ: f.Type}
+		}
+		v = e.coerce(v, f.Type)
+		if v.t.sort != w.sortOf(f.Type) {
+			specFail("field %s: sort %s want %s", id.Name, v.t.sort, w.sortOf(f.Type))
+		}
+		args[i] = v.t
+	}
+	return Val{t: w.mkStruct(si, args), typ: t}
 }
 
 func (e *SpecEnv) callPure(pf *PureFunc, n *ast.CallExpr) Val {
@@ -863,6 +984,7 @@ func (e *SpecEnv) convert(v Val, t types.Type) Val {
 // Forms: x.f (field), *p (whole object), elems(s) (all elements of a slice),
 // s[i] (one element), mapOf(m) (contents of a map), all(T) is not supported.
 type ModLoc struct {
+	all   bool       // everything: all heaps become arbitrary
 	loc   *Term      // single location (with typ: all leaves below it)
 	typ   types.Type // type stored at loc
 	elems *Term      // slice base: all elements (any index) of this backing array
@@ -872,6 +994,9 @@ type ModLoc struct {
 }
 
 func (e *SpecEnv) evalLocs(x ast.Expr) []ModLoc {
+	if id, ok := x.(*ast.Ident); ok && id.Name == "everything" {
+		return []ModLoc{{all: true, text: "everything"}}
+	}
 	if call, ok := x.(*ast.CallExpr); ok {
 		if id, ok := call.Fun.(*ast.Ident); ok {
 			switch id.Name {
